@@ -363,6 +363,9 @@ pub proof fn lemma_del(b: Seq<u8>, m: Seq<Range<usize>>, k: int)
 } // verus!
 verus! {
 /// what the whitespace pass may rely on: ascending, separated, blank-only ranges strictly inside (s, e)
+pub open spec fn ranges_view(v: Seq<Range<usize>>) -> Seq<(int, int)> {
+    Seq::new(v.len(), |i: int| (v[i].start as int, v[i].end as int))
+}
 pub open spec fn block_safe(b: Seq<u8>, s: int, e: int, v: Seq<Range<usize>>) -> bool {
     &&& forall|i: int| 0 <= i < v.len() ==> s < (#[trigger] v[i]).start < v[i].end <= e && v[i].end <= b.len()
     &&& forall|i: int| 0 <= i < v.len() ==> all_blank(b, (#[trigger] v[i]).start as int, v[i].end as int)
